@@ -426,7 +426,8 @@ func runC02(w *World, r *Report, tier string) {
 			}
 			return isEnd(bo.X) || isEnd(bo.Y)
 		}
-		if err := walkPaths(entryLoc(fn), nil, nil, 100000, func(path []ssa.Instruction, end pathEnd) {
+		walkLoopExits = true // the loop may end through a flag set where the end tag is recognised
+		werr := walkPaths(entryLoc(fn), nil, nil, 100000, func(path []ssa.Instruction, end pathEnd) {
 			ret, ok := path[len(path)-1].(*ssa.Return)
 			if !ok || end == endCycle || len(ret.Results) != 1 {
 				return
@@ -442,7 +443,9 @@ func runC02(w *World, r *Report, tier string) {
 				endOK = false
 				endWhere = w.ipos(ret) + " returning " + w.nfOn(res, path)
 			}
-		}); err != nil {
+		})
+		walkLoopExits = false
+		if werr != nil {
 			endOK = false
 		}
 		r.Check(endOK && nNil > 0, "R3", fk+"#end-detection", w.pos(fn.Pos()), "the loop can report success without having seen this element's own end tag (tt == start.End()): "+endWhere, "nil only on tt == start.End()")
